@@ -2386,6 +2386,9 @@ class Evaluator:
                 pv = [int(x) if isinstance(x, sp.Integer) else x.v for x in a]
                 r_ = getattr(_op, short)(*pv)
                 return Const(r_) if isinstance(r_, bool) else sp.Integer(r_)
+            if len(a) == 2 and isinstance(a[0], Obj) and a[0].ci is not None:
+                # operator.or_(x, y) is x | y: the class's own __or__ / __and__ / __xor__
+                return self.binop({'and_': ast.BitAnd(), 'or_': ast.BitOr(), 'xor': ast.BitXor()}[short], a[0], a[1])
             if len(a) == 2:
                 return BoolT({'and_': 'and', 'or_': 'or', 'xor': 'xor'}[short], tuple(a))
         return App(name, tuple(a) + tuple(Tup((Const(k), v)) for k, v in sorted(
